@@ -16,6 +16,7 @@ mod c11;
 mod c12;
 mod c13;
 mod c11_live;
+mod c14s;
 mod c15;
 mod c16;
 
@@ -32,7 +33,10 @@ pub fn run(engine: &str, toks: Vec<Tok>) -> Vec<Tok> {
         "c06_decode" => c06::decode(toks),
         "c06_encode" => c06::encode(toks),
         "c07_run" => c07::run(toks),
+        "c07_read_error" => c07::read_error(toks),
         "c08_run" => c08::run(toks),
+        "c14_session" => c14s::run(toks),
+        "c14_establish" => c14s::establish(toks),
         "c20_run" => c20::run(toks),
         "c20_scrub" => c20::scrub(toks),
         "c19_run" => c19::run(toks),
